@@ -136,7 +136,7 @@ func (e *vEnv) spec(shard, nshards int) explore.Spec {
 			}
 			return e.acceptedView(n.Ctx, g)
 		},
-		MaxDepth: 3, Deadline: e.r.Deadline(60*time.Second, 12*time.Minute),
+		MaxDepth: 3, Deadline: e.r.Deadline(95*time.Second, 14*time.Minute),
 		ShardDepth: 2, Shard: shard, NShards: nshards,
 	}
 	if e.thorough {
